@@ -466,6 +466,12 @@ class ProcessContinuation(Event):
         """Advance the generator to its next yield and schedule the continuation."""
         from happysimulator.core.sim_future import SimFuture
 
+        # Same gate as Event.invoke(): a crashed or paused entity executes
+        # nothing, so a process that was in flight when the fault hit must not
+        # advance. The continuation is dropped, like any other delivery.
+        if getattr(self.target, "_crashed", False):
+            return []
+
         tracing_on = _event_tracing_enabled
         if tracing_on:
             self.trace("process.resume.start")
